@@ -6054,14 +6054,16 @@ fintPushFluids(int nFluids)
 Bool
 fintYesOrNo(String t)
 {
-	char c0;
+	int c0, c;
 
 	if (!fintConfirm) return true;
 
 	while (true) {
 		(void)fprintf(osStdout, "%s", t);
 		c0 = getchar();
-		while(getchar() != '\n')
+		/* No more input: nobody is there to say yes. */
+		if (c0 == EOF) return false;
+		while ((c = getchar()) != '\n' && c != EOF)
 			;
 
 		if (c0 == 'y' || c0 == 'Y')
